@@ -45,6 +45,10 @@ func newSimWorld(sc *Scenario) *simWorld {
 	for _, m := range sc.Rig.CallbackModules {
 		mod := m
 		_ = k.RegisterResponseCallback(m, func(ctx sdk.Context, id tmbytes.HexBytes, outs []string, err error) {
+			if rc, ok := k.GetRequestContext(ctx, id); ok && sc.Rig.ReentrantCreate && err != nil {
+				_, _ = k.CreateRequestContext(ctx, rc.ServiceName, rc.Providers, rc.Consumer, rc.Input, rc.ServiceFeeCap, rc.Timeout,
+					false, false, 0, 0, st.RUNNING, 1, mod)
+			}
 			if rc, ok := k.GetRequestContext(ctx, id); ok && sc.Rig.ReentrantSelfKill && err != nil {
 				_ = k.KillRequestContext(ctx, id, rc.Consumer)
 			}
@@ -67,6 +71,20 @@ func newSimWorld(sc *Scenario) *simWorld {
 			if sc.Rig.Reentrant {
 				if rc, ok := k.GetRequestContext(ctx, id); ok {
 					_ = k.KillRequestContext(ctx, id, rc.Consumer)
+				}
+			}
+			if sc.Rig.ReentrantStartSiblings {
+				var others [][]byte
+				var consumers []sdk.AccAddress
+				k.IterateRequestContexts(ctx, func(oid tmbytes.HexBytes, oc st.RequestContext) bool {
+					if oc.ModuleName == mod && !bytes.Equal(oid, id) {
+						others = append(others, append([]byte{}, oid...))
+						consumers = append(consumers, oc.Consumer)
+					}
+					return false
+				})
+				for i := range others {
+					_ = k.StartRequestContext(ctx, others[i], consumers[i])
 				}
 			}
 			if sc.Rig.ReentrantPauseSiblings {
